@@ -103,6 +103,18 @@ CLAIMED['C13'] = dict(
          'are immutable once instances exist and slot ids are in range (C19).',
     ref='§4 C13')
 
+CLAIMED['C03'] = dict(
+    text='Decides with Z3 over the real MIR: C03.K1 Class::inherit / add_method / add_field / get_method / get_field_index over '
+         'bounded symbolic tables (<= 2 (quick) / 3 (thorough) methods and fields, symbolic interned names): a subclass starts '
+         'with exactly its parent\'s methods (the initialiser included) and fields at unchanged indices, inherits init unless it has '
+         'its own, add_method / add_field update exactly the named entry and number new fields after the existing ones; C03.K3 the '
+         'real lowering functions assign / assign_binary / send hand a class (hence a compile-time field slot) to '
+         'property_get / property_set only when the receiver is self itself. Invoke == get-then-call on the VM side and the '
+         'property ops are decided under C13.K1 (cached vs first execution) and C06.K1. Static methods / metaclasses and bound '
+         'method values are not yet machine checked.',
+    note='Trusted: rustc MIR printer, mirsym, hash maps as association lists with distinct keys, abstract identities, Z3.',
+    ref='§4 C03')
+
 NOT_APPLICABLE = {
     'C08': 'global liveness of the fiber scheduler needs the running Vm (DESIGN.md §6); no bounded symbolic encoding of the real scheduler is within reach',
 }
